@@ -309,7 +309,8 @@ class UnitRunner:
                 allowed = c["raises"]
                 ok = allowed is None or any(_exc_is(ip, raised, a) for a in allowed)
                 if not ok:
-                    ip.oblige(f"noraise:{ename}@L{ip.cur_line}", False, {"exception": ename, "line": ip.cur_line,
+                    where = getattr(raised, "fields", {}).get("__where__") or f"L{ip.cur_line}"
+                    ip.oblige(f"noraise:{ename}@{where}", False, {"exception": ename, "line": where,
                                                                         "args": _short(getattr(raised, 'fields', {}).get('args'))})
                 else:
                     for i, e in enumerate(c["ensures_raise"]):
